@@ -35,6 +35,11 @@ func (eval Evaluator) Average(ctIn *rlwe.Ciphertext, logBatchSize int, opOut *rl
 
 	level := utils.Min(ctIn.Level(), opOut.Level())
 
+	// The inner sum below is evaluated in place on opOut, which must
+	// therefore have the level and the metadata of the input.
+	opOut.Resize(opOut.Degree(), level)
+	*opOut.MetaData = *ctIn.MetaData
+
 	n := 1 << (ctIn.LogDimensions.Cols - logBatchSize)
 
 	// pre-multiplication by n^-1
